@@ -270,6 +270,25 @@ impl NodeCtx {
             "metrics" => self.metrics().await,
             "barrier" => self.barrier(op["min_index"].as_u64().unwrap_or(0), op["bound_ms"].as_u64().unwrap_or(15000)).await,
             "dump" => self.dump(op).await?,
+            "raft_meta" => {
+                // what the raft store serves for membership and node addresses (RaftStorage::get_membership_config / get_target_addr read the same record)
+                use rnacos::raft::filestore::raftindex::{RaftIndexRequest, RaftIndexResponse};
+                match self.index.send(RaftIndexRequest::LoadMember).await? {
+                    Ok(RaftIndexResponse::MemberShip { member, member_after_consensus, node_addrs }) => {
+                        let mut a = serde_json::Map::new();
+                        let mut ids: Vec<&u64> = node_addrs.keys().collect();
+                        ids.sort();
+                        for id in ids {
+                            a.insert(id.to_string(), json!(node_addrs[id].as_str()));
+                        }
+                        let mut m = member.clone();
+                        m.sort();
+                        json!({"members": m, "members_after": member_after_consensus, "node_addrs": a})
+                    }
+                    Ok(_) => json!({"err": "unexpected answer"}),
+                    Err(e) => json!({"err": e.to_string()}),
+                }
+            }
             "compact" => {
                 // what the raft core does when the snapshot threshold is reached
                 match app.raft_store.do_log_compaction().await {
